@@ -2,7 +2,9 @@
 """Seeded-variant self-test (informational): for every confirmed mutant under /verif/seeded, apply its patch to a
 scratch clone of /repo, run the quick check of every claimed property against that clone and record which checks
 report a violation.  Nothing here is a registered check; results go to seeded/MATRIX.json.
-usage: selftest.py [--jobs N] [prefix ...]      (prefix: C03 or C03-m2)"""
+usage: selftest.py [--jobs N] [--target-only] [prefix ...]      (prefix: C03 or C03-m2)
+--target-only: run only the check of the mutant's own property (6x faster); the rows of the other checks are kept from the
+existing seeded/MATRIX.json (they are then as old as that file's `_commit_full`)."""
 import json, os, shutil, subprocess, sys, tempfile, time
 V = os.path.dirname(os.path.dirname(os.path.abspath(__file__)))
 props = [c["property_id"] for c in json.load(open(os.path.join(V, "MANIFEST.json")))["checks"]]
@@ -17,6 +19,7 @@ if "--worker" in args:
     i = args.index("--worker")
     worker = (int(args[i + 1]), int(args[i + 2]), args[i + 3])
     del args[i:i + 4]
+target_only = "--target-only" in args
 only = [a for a in args if not a.startswith("--")]
 seeds = sorted(d for d in os.listdir(os.path.join(V, "seeded"))
                if os.path.isfile(os.path.join(V, "seeded", d, "patch.diff")))
@@ -24,9 +27,9 @@ if only:
     seeds = [s for s in seeds if any(s.startswith(o) for o in only)]
 
 
-def run_checks(env):
+def run_checks(env, which=None):
     row = {}
-    for p in props:
+    for p in (which or props):
         r = subprocess.run([os.path.join(V, "bin", "verif"), "check", p], env=env, stdout=subprocess.PIPE, stderr=subprocess.STDOUT, text=True)
         if r.returncode != 0:
             rules = sorted({l.strip().split(":")[0].replace("rule ", "") for l in r.stdout.splitlines() if l.startswith("  rule ")})
@@ -51,8 +54,8 @@ def work(my_seeds, with_base, out_file):
             if a.returncode != 0:
                 matrix[sd] = {"error": "patch does not apply: " + a.stdout[-200:]}
                 continue
-            row = run_checks(env)
             tgt = sd.split("-")[0]
+            row = run_checks(env, [tgt] if target_only else None)
             matrix[sd] = {"target": tgt, "caught_by": row, "caught_by_target": tgt in row}
             subprocess.check_call(["git", "-C", repo, "checkout", "-q", "--", "."])
             print(sd, "->", ",".join(sorted(row)) or "NOT CAUGHT", flush=True)
@@ -76,7 +79,8 @@ else:
     for k in range(jobs):
         f = tempfile.mktemp(prefix="matrix-part-%d-" % k)
         parts.append(f)
-        procs.append(subprocess.Popen([sys.executable, os.path.abspath(__file__), "--worker", str(k), str(jobs), f] + only))
+        procs.append(subprocess.Popen([sys.executable, os.path.abspath(__file__), "--worker", str(k), str(jobs), f] + only +
+                                      (["--target-only"] if target_only else [])))
     for p in procs:
         p.wait()
 matrix = {}
@@ -87,7 +91,22 @@ for f in parts:
 matrix["_wall_s"] = round(time.time() - t0)
 matrix["_commit"] = subprocess.run(["git", "-C", V, "rev-parse", "--short", "HEAD"], stdout=subprocess.PIPE, text=True).stdout.strip()
 dst = os.path.join(V, "seeded", "MATRIX.json")
-if only and os.path.exists(dst):        # partial run: merge into the existing matrix
+if target_only and os.path.exists(dst):
+    # keep the rows of the other checks from the last full run; replace the target's own verdict
+    old = json.load(open(dst))
+    for k, v in matrix.items():
+        if k.startswith("_") or not isinstance(v, dict) or "target" not in v:
+            continue
+        prev = old.get(k, {}).get("caught_by", {}) if isinstance(old.get(k), dict) else {}
+        merged = {p: r for p, r in prev.items() if p != v["target"]}
+        merged.update(v["caught_by"])
+        v["caught_by"] = merged
+    matrix["_commit_full"] = old.get("_commit_full", old.get("_commit"))
+    matrix["_commit_target_only"] = matrix.pop("_commit")
+    matrix["_commit"] = matrix["_commit_target_only"]
+    old.update(matrix)
+    matrix = old
+elif only and os.path.exists(dst):        # partial run: merge into the existing matrix
     old = json.load(open(dst))
     old.update(matrix)
     matrix = old
